@@ -105,10 +105,13 @@ func SuperTriangle(points []vector2.Float64) []vector2.Float64 {
 	}
 
 	height := max.Y() - min.Y()
-	min = vector2.New(min.X(), min.Y()-2)
+	width := max.X() - min.X()
+	size := math.Max(width, height)
+	height = size
+	width = size
+	min = vector2.New(min.X(), min.Y()-size)
 
 	xMiddle := (min.X() + max.X()) / 2.
-	width := max.X() - min.X()
 
 	top := vector2.New(
 		xMiddle,
